@@ -33,7 +33,13 @@ def run_g(ctx, units):
     base = load_baseline()
     ev = {"units": [], "obligations": 0, "discharged": 0, "functions_under_contract": [], "assumption_scan": {}, "smt_ms": 0, "wall_s": 0}
     for unit, relevant in units.items():
-        r = unit_result(unit)
+        try:
+            r = unit_result(unit)
+        except Undecided as e:
+            # a unit the verifier cannot process is undecided for its obligations only; other layers still report
+            ctx.undecided.append(str(e)[:600])
+            ev["units"].append({"unit": unit, "undecided": str(e)[:300]})
+            continue
         funcs = r["functions"]
         expected = base.get(unit, {}).get("functions", [])
         missing = [f for f in expected if f not in funcs]
